@@ -2,9 +2,8 @@ SPECIFICATION MCSpec
 CONSTANTS
   NComp = 2
   RefKind = 1
-  MaxEv = 2
+  MaxEv = 1
   OnlyCyclic = FALSE
-  DisjTrueAll = FALSE
+  DisjTrueAll = TRUE
 CHECK_DEADLOCK FALSE
 INVARIANT Sound
-CONSTRAINT Export
